@@ -28,7 +28,7 @@ def strategy(draw):
     dt = draw(gen.choice(gen.DTS))
     n = draw(st.one_of(st.integers(16, 200), st.integers(16, 800)))
     nwin = draw(st.integers(1, 6))
-    exp = draw(st.integers(-6, 6))
+    exp = draw(st.one_of(st.integers(-6, 6), st.just(-10)))
     many = draw(gen.chance(30))
     if many:
         # long deployments: hundreds of (short) windows in one call
